@@ -6,7 +6,8 @@
    refutations.  Every theorem quantifies over every label list (= every interleaving of
    handle_event / stop critical sections, thread steps and clock ticks), without length bound. *)
 Require Import WD.Base.Prelude WD.Base.Lts WD.Model.Debouncer WD.Proofs.DebouncerProofs.
-Require WD.Model.Restart WD.Proofs.RestartProofs WD.Model.ShellTrick WD.Proofs.ShellTrickProofs.
+Require WD.Model.Restart WD.Proofs.RestartProofs WD.Proofs.RestartSerialProofs WD.Proofs.RestartSerialMain.
+Require WD.Model.ShellTrick WD.Proofs.ShellTrickProofs.
 
 (* Safety, "exactly once, in arrival order": the delivered batches, concatenated, followed by what is
    still pending (swapped-out batch whose callback has not run yet, then _events) are exactly the
@@ -150,32 +151,59 @@ End Shell.
 Module Restart.
 Import WD.Model.Restart WD.Proofs.RestartProofs.
 
-(* Full statements about the REPAIRED protocol (fixes/F12-autorestart-serialise-restart.diff:
-   _restart_process runs under _stopping_lock), [serial = true].  They are NOT proved in this
-   development yet (kept as Definitions, per CONVENTIONS); what is machine-checked below are the
-   refutations for the pinned protocol and that the witness schedule is not a run of the repaired one.
-   The repaired code is checked against these statements by the oracle on every run (harness). *)
-Definition C18_restart_one_child_full : Prop :=
-  forall restart_on_exit kill_after tr s,
-    run (restart_lts true restart_on_exit kill_after) (init_state restart_on_exit) tr = Some s ->
-    (alive_children s <= 1)%nat /\ (max_alive s <= 1)%nat.
+(* The REPAIRED protocol (fix F15, fixes/F15-autorestart-serialise-restart.diff: _restart_process runs
+   under the re-entrant _stopping_lock), [serial = true]: every label list, any number of triggers,
+   self-exits and watcher threads, any kill_after, restart_on_command_exit on or off.
+   Proof: the invariant [Inv] of Proofs/RestartSerialProofs.v - the lock owner is the unique thread
+   inside _restart_process; once _is_trick_stopping is set no restarter is past its check; the writers
+   of process / process_watcher exclude each other; process = Some p for the only child that may be
+   alive; every watcher other than the current one has been told to stop. *)
 
-(* after stop() returned: no child alive, never a Spawn again, the watcher that was current is
-   finished and every other watcher is finished or has been told to stop *)
-Definition C18_restart_after_stop_full : Prop :=
-  forall restart_on_exit kill_after tr s,
-    run (restart_lts true restart_on_exit kill_after) (init_state restart_on_exit) tr = Some s ->
-    mpcs s = MReturned ->
-    alive_children s = 0%nat /\
-    forallb (fun w => negb (watcher_live w)) (watchers s) = true /\
-    forall tr' s', run (restart_lts true restart_on_exit kill_after) s tr' = Some s' ->
-      spawns s' = spawns s /\ alive_children s' = 0%nat.
+(* Never more than one child alive: in every reachable state, and right after every Popen. *)
+Theorem C18_restart_one_child : forall restart_on_exit kill_after tr s,
+  run (restart_lts true restart_on_exit kill_after) (init_state restart_on_exit) tr = Some s ->
+  (alive_children s <= 1)%nat /\ (max_alive s <= 1)%nat.
+Proof. exact RestartSerialMain.one_child. Qed.
+Print Assumptions C18_restart_one_child.
 
-(* every completed _restart_process call made while the trick is not stopping starts exactly one child *)
-Definition C18_restart_count_full : Prop :=
-  forall restart_on_exit kill_after tr s,
-    run (restart_lts true restart_on_exit kill_after) (init_state restart_on_exit) tr = Some s ->
-    spawns s = S (triggers_done s) /\ length (children s) = spawns s.
+(* After stop() has returned: no child is alive, and in every continuation no child is ever started
+   again (spawns is frozen), none is alive, and every ProcessWatcher thread has finished or has its
+   stopped flag set ([watcher_live] false).  What is NOT claimed (and false, known finding
+   C18-superseded-watcher-not-joined): that every watcher has finished - a superseded watcher that
+   was told to stop may still have its last step (WPoll/WNoticed -> WDone) to do; it can start nothing. *)
+Theorem C18_restart_after_stop : forall restart_on_exit kill_after tr s,
+  run (restart_lts true restart_on_exit kill_after) (init_state restart_on_exit) tr = Some s ->
+  mpcs s = MReturned ->
+  alive_children s = 0%nat /\
+  forallb (fun w => negb (watcher_live w)) (watchers s) = true /\
+  forall tr' s', run (restart_lts true restart_on_exit kill_after) s tr' = Some s' ->
+    spawns s' = spawns s /\ alive_children s' = 0%nat /\ mpcs s' = MReturned /\
+    forallb (fun w => negb (watcher_live w)) (watchers s') = true.
+Proof. exact RestartSerialMain.after_stop. Qed.
+Print Assumptions C18_restart_after_stop.
+
+(* Restart accounting.  [admitted] counts the _restart_process calls - made by the triggering thread
+   (one per event, or per debouncer batch) and by a watcher whose child exited by itself while the
+   watcher had not been told to stop - that found _is_trick_stopping unset; [pending] (0 or 1) is the
+   admitted call of the lock holder that has not reached Popen yet.  Children started =
+   1 (start()) + admitted calls - the pending one: each admitted call starts exactly one child, calls
+   arriving after stop() set the flag start none; child ids are 0 .. spawns-1. *)
+Theorem C18_restart_count : forall restart_on_exit kill_after tr s,
+  run (restart_lts true restart_on_exit kill_after) (init_state restart_on_exit) tr = Some s ->
+  (spawns s + pending s = S (admitted s))%nat /\ (pending s <= 1)%nat /\ length (children s) = spawns s.
+Proof. exact RestartSerialMain.spawn_count. Qed.
+Print Assumptions C18_restart_count.
+
+(* Non-vacuity: an event restart (child 0 -> 1), a self-exit restart by watcher 1 (child 1 -> 2), then
+   stop(): MReturned, three children started, two admitted calls, none alive, all watchers done. *)
+Example C18_restart_nonvacuous :
+  let T := repeat TStep in let W := fun i => repeat (WStep i) in let Mn := repeat MStep in
+  let tr := [Trigger] ++ T 5 ++ [Exit 0%nat] ++ T 8 ++ [WStep 0] ++ [Exit 1%nat] ++ W 1%nat 14 ++
+            [StopCall] ++ Mn 5 ++ [Exit 2%nat] ++ Mn 4 ++ [WStep 2] ++ Mn 1 in
+  exists s, run (restart_lts true true 4) (init_state true) tr = Some s /\
+    mpcs s = MReturned /\ spawns s = 3%nat /\ admitted s = 2%nat /\ children s = [false; false; false] /\
+    max_alive s = 1%nat /\ forallb (fun w => match w_pc w with WDone => true | _ => false end) (watchers s) = true.
+Proof. eexists. vm_compute. repeat split. Qed.
 
 (* Pinned protocol (no lock around _restart_process): a self-exit restart racing an event restart
    leaves two children alive, self.process pointing at the younger one (the other is orphaned) ... *)
